@@ -229,8 +229,10 @@ def merge(O, N, path=(), strict_domain=False, removed_above=frozenset()):
         return N
     if O.kind == 'seq' and N.kind == 'map' and N.dele:
         # a deleting mapping replaces the list like any other deleting node (its keys are not positions)
-        if any(x.prio != N.prio for _, x in walk(N)) or any(x.prio > N.prio for _, x in walk(O)):
-            raise OutOfDomain('a deleting mapping onto a list, with priorities of their own on either side: whether the mapping keys are positions then is not specified')
+        int_keys = any(isinstance(k, int) and not isinstance(k, bool) for k in N.ch)
+        if (int_keys and any(x.prio != N.prio for _, x in walk(N))) or any(x.prio > N.prio for _, x in walk(O)):
+            raise OutOfDomain('a deleting mapping with integer keys onto a list, with priorities of their own on either side: whether the mapping keys are positions then is not specified')
+        # (with names as keys there is nothing to match against positions: the mapping replaces the list, whatever priorities its own entries carry)
         removed = set()
         filt(O, lambda rel, e: e.prio > nearest(N, rel).prio, removed=removed)
         if O.ch or N.prio < O.prio:
